@@ -341,6 +341,10 @@ def execute(spec):
                     o['bool'] = bool(obj)
                     o['status'] = getattr(obj, '_status', None)
                     o['same_exception'] = raised is not None and getattr(obj, '_exception', None) is raised
+                    par = getattr(obj, 'parent', None)
+                    if par is not None and isinstance(par, ns['group_fb']):
+                        told = [act for (child, act) in (par.children or []) if child is obj]
+                        o['group_told'] = [bool(a) for a in told]
                     msg = getattr(obj, 'message', None)
                     o['message'] = msg if isinstance(msg, (str, type(None))) else repr(msg)
                     delayed_now = kind == 'make' and op['kw'].get('delay_condition') == 'True'
@@ -480,6 +484,13 @@ def judge(spec, res):
                 viol('not-recorded-exactly-once', 'object appears %d time(s) (triggered %d, untriggered %d, other report %d)' % (
                     total, o['in_triggered'], o['in_untriggered'], o['in_other_report']), ctx)
                 return vs
+            if 'group_told' in o and not fired:
+                # the parent group hears about its child exactly once, with the child's actual outcome
+                triggered_now = bool(o['in_triggered'])
+                if o['group_told'] != [triggered_now]:
+                    viol('group-parent-misinformed', 'child is %s but its group parent was told %s' % (
+                        'triggered' if triggered_now else 'untriggered', o['group_told']), ctx)
+                    return vs
             if fired:
                 silent = (want is False or want is None and kind == 'handle') and fired[0]['func'] != 'condition'
                 if kind == 'handle':
